@@ -402,7 +402,7 @@ class BMSMap(Map[BMSNoteList, BMSHitList, BMSHoldList, BMSBpmList], BMSMapMeta):
 
             # TODO: Change offsets to accept multiple args to optimize this
 
-            offsets = tm.offsets(snaps)
+            offsets = tm.offsets(snaps, bcs_s)
 
             self.hits = BMSHitList(
                 [
@@ -423,8 +423,8 @@ class BMSMap(Map[BMSNoteList, BMSHitList, BMSHoldList, BMSBpmList], BMSMapMeta):
                     ]
                 )
             )
-            offsets_head = tm.offsets(snaps_head)
-            offsets_tail = tm.offsets(snaps_tail)
+            offsets_head = tm.offsets(snaps_head, bcs_s)
+            offsets_tail = tm.offsets(snaps_tail, bcs_s)
 
             self.holds = BMSHoldList(
                 [
@@ -442,7 +442,7 @@ class BMSMap(Map[BMSNoteList, BMSHitList, BMSHoldList, BMSBpmList], BMSMapMeta):
         else:
             self.holds = BMSHoldList([])
 
-        tm = tm.reseat()
+        tm = TimingMap.from_bpm_changes_snap(initial_offset=0, bcs_s=bcs_s)
         self.bpms = BMSBpmList(
             [
                 BMSBpm(offset=b.offset, bpm=b.bpm, metronome=b.metronome)
